@@ -126,7 +126,7 @@ func parseWildcardConstraint(operator, version string) ([]*constraint, error) {
 	baseVersion := strings.TrimSuffix(version, ".*")
 
 	e := &Ecosystem{}
-	v, err := e.NewVersion(baseVersion + ".0")
+	v, err := e.NewVersion(baseVersion)
 	if err != nil {
 		return nil, err
 	}
